@@ -85,22 +85,23 @@ def run_shard(target: str, phase: str, cases: list, ctx: dict) -> dict:
     v0 = (vid.stats['calls'], vid.stats['reused'])
     try:
         out = fn(phase, cases, ctx)
-    except CaseTimeout:
-        raise
-    except Exception as first:
+    except (CaseTimeout, Exception) as first:
         # An exception escaped the check's own guards.  If it comes out of the furax sources it is the library's behaviour
         # on some case: re-run the shard case by case so that the offending case becomes a violation (and every other case
-        # is still executed); anything else is a failure of the machinery.
+        # is still executed); a watchdog timer that fired is treated the same way (the coordinator then confirms it in a
+        # fresh process); anything else is a failure of the machinery.
         from .probe import from_library
 
-        if not from_library(first):
+        if not isinstance(first, CaseTimeout) and not from_library(first):
             raise HarnessError(f'worker function {target} failed on phase {phase}:\n{traceback.format_exc()}')
+        signal.setitimer(signal.ITIMER_REAL, 0)
         out = {}
         for case in cases:
             try:
                 part = fn(phase, [case], ctx)
             except CaseTimeout:
-                raise
+                signal.setitimer(signal.ITIMER_REAL, 0)
+                part = {'n': 1, 'violations': [{'kind': 'timeout', 'case': case, 'detail': 'a watchdog timer of the check fired while this case was running'}]}
             except Exception as e:  # noqa: BLE001
                 if not from_library(e):
                     raise HarnessError(f'worker function {target} failed on phase {phase}:\n{traceback.format_exc()}')
